@@ -148,7 +148,7 @@ def run(R):
     byid = {}
     for i in range(0, len(jobs), 1000):
         recs = gramrun.run_grammars(jobs[i:i + 1000])
-        gramrun.compare(R, recs, 'ignore', lambda r, c, g, w: 'ignore-semantics')
+        gramrun.compare(R, recs, 'ignore', lambda r, c, g, w: 'ignore-semantics', reject_is_violation=True)
         for r in recs:
             byid[r['gid']] = r
     # structure of the translator's output + the explicit rewriting agrees
